@@ -71,7 +71,7 @@ P("C08",
                "the Gallina decoder covers numeric references and the names amp/lt/gt/quot; other named references are outside the escapers' image"])
 
 INTERP_TB = [KERNEL, VMODE, HARNESS,
-             "modelled, not verified: the inspector contract (GetTo/Compare/Length/Loop of koykov/inspector, Model/Value.v), x2bytes text conversion incl. strconv float text (carried with the data, checked by the harness), Go regexp (tag classification: tied by the parser correspondence compile(ast) = dump(Parse(print ast)))",
+             "modelled, not verified: the inspector contract (GetTo/Compare/Length/Loop of koykov/inspector, Model/Value.v), x2bytes text conversion incl. strconv float text (carried with the data, checked by the harness), Go's regexp engine (Model/Regex.v, with the expressions regenerated from the source on every run by harness/regexgen.go; tied by the parser correspondence parse(now) src = dump(Parse src) = compile(ast) on every generated case)",
              "reference semantics Spec/RefEval.v evaluated on the generator's AST is the property oracle; Spec/Compile.v is tied to the real parser by tree equality on every generated case"]
 INTERP_ASSUME = ["generated templates stay inside the grammar of Spec/Ast.v; constructs outside the reference semantics' domain evaluate to SNA and are judged by the model/implementation correspondence only",
                  "map iteration order: range loops over maps are generated with at most one entry"]
@@ -79,7 +79,7 @@ INTERP_ASSUME = ["generated templates stay inside the grammar of Spec/Ast.v; con
 
 def PI(pid, title, text, design, technique_extra=""):
     P(pid, title=title, emode=False,
-      technique="Rocq proof over a Gallina model of the tree-walking interpreter (Model/Interp.v) and a reference semantics (Spec/RefEval.v); model, reference semantics and compile function tied to the code on every run by V-mode correspondence (cases.v + vm_compute) on the tree dumped from the real parser" + technique_extra,
+      technique="Rocq proof over a Gallina model of the tree-walking interpreter (Model/Interp.v) and a reference semantics (Spec/RefEval.v); model, reference semantics and compile function tied to the code on every run by V-mode correspondence (cases.v + vm_compute) on the tree dumped from the real parser; the parser itself is modelled (Model/Parser.v over regular expressions regenerated from /repo's source on every run) and must build the same tree from the same bytes" + technique_extra,
       level_text=text,
       level_note="Trusted: Coq kernel + vm_compute, the Go harness (generator, Go->Gallina serialiser, verdict parsing), the verif-tagged tree dump hook. The theorems are about the model; the model is validated against the real engine on every generated case (output bytes, error class, write count), the reference semantics against the real output, the compile function against the real parser's tree.",
       design_ref=design, trusted_base=INTERP_TB, assumptions=INTERP_ASSUME)
@@ -169,6 +169,7 @@ P("C19",
   assumptions=["inspectors of the data do not allocate (slices and structs of koykov/inspector's testobj; maps excluded)"])
 # ---- additions of the build phase (kept separate so that the texts above stay as reviewed) ----
 PROPS["C01"]["level_text"] += (" Also proved (Proofs/PreprocProofs.v) about Model/Preproc.v, the parser's source clean-up: comments of the form {#...#} are removed and nothing else (no-opener identity, removal equation, unterminated case), line breaks with the white space after them are removed and nothing else (no line feed in the result, identity without line feeds, the line-break-and-indentation equation, idempotence), trimming is an infix, and the whole clean-up only ever deletes bytes (sub-sequence); every run compares Model/Preproc.v with the real cutComments/cutFmt byte for byte on generated sources (hook VerifPreprocess), and parses every source under both keep-format settings.")
+PROPS["C01"]["level_text"] += (" From source bytes (Model/Parser.v, Proofs/ParserModelProofs.v, Proofs/EndToEnd.v; for every table of expressions): a source without tags parses to one raw node with exactly its bytes and renders as itself (C01_static_source_renders_itself), a template without block tags becomes its pieces node for node in source order (C01_flat_template_keeps_order), static text is appended unchanged at every nesting level; every run checks parse(now) src = the real parser's tree on every case, and the clean-up through the regenerated comment/format expressions byte for byte.")
 PROPS["C02"]["level_text"] += " Central theorem (Proofs/Refine*.v): for every supported template the interpreter model refines the reference semantics (output, final store, signal); corollaries C02_if_refines, C02_ternary_refines, C02_switch_refines, C02_ifok_refines; C02_branch_by_operands holds for every value of the scratch buffer and error register."
 PROPS["C03"]["level_text"] += " C03_cloop_refines / C03_rloop_refines / C03_interp_refines_ref: loops of the model refine the reference semantics (iterations, separators escaped like text inside bound tags, else iff no iteration, break-depth bookkeeping, the loop variable as a live cell), by induction on fuel and on the element list."
 PROPS["C05"]["level_text"] += (" History level (Proofs/HistoryProofs.v): clear_log (ctx_reset (clear_log c)) = ctx_new for every c; for every history, whatever the steps before a reset, the steps after it are judged exactly as on a new context (C05_history_after_reset, with the set-aside case stated and the unconditional form refuted); rendering never reads the event log (C05_log_does_not_influence_rendering). Re-proved from the source on every run: Reset's body touches every field classified as cleared or truncated, and every setter block leaves exactly one live representation in a slot. "
